@@ -258,7 +258,15 @@ def run_inproc(histories, workers=16, timeout_ms=10000, chunk=8):
     from concurrent.futures import ThreadPoolExecutor
     with ThreadPoolExecutor(max_workers=workers) as ex:
         parts = list(ex.map(lambda c: _run_inproc_batch(c, timeout_ms), chunks))
-    return [r for p in parts for r in p]
+    res = [r for p in parts for r in p]
+    # a watchdog verdict is confirmed on its own with a generous limit (the machine may be busy)
+    if timeout_ms < 60000:
+        for k, ans in enumerate(res):
+            if any(isinstance(a, dict) and a.get('hang') for a in ans):
+                again = _run_inproc_batch([histories[k]], 60000)
+                if again:
+                    res[k] = again[0]
+    return res
 
 
 # ---------------------------------------------------------------- stdio client
